@@ -27,8 +27,8 @@ COQ_HEADER = ("From Coq Require Import List NArith.\nFrom SK Require Import lib.
               "Import ListNotations.\n"
               + "".join("Definition n%d := %d%%nat.\n" % (i, i) for i in range(10))
               + "".join("Definition k%d := %d%%N.\n" % (i, i) for i in range(200))
-              + "Definition QS (gm : bool) (c p : nat) (f ind : bool) (z : list (N * N) * option N) : query := "
-                "QSub gm c p f ind (fst z) (snd z).\n")
+              + "Definition QS (gm : bool) (c p : nat) (f ind : bool) (z : cmp * cmp * list (N * N) * option N) : query := "
+                "QSub gm c p f ind (fst (fst (fst z))) (snd (fst (fst z))) (snd (fst z)) (snd z).\n")
 SHARD = 120
 # quick tier: both stages must end with a verdict inside the 900 s limit of the evaluation sandbox (thorough: x4 by main.py)
 IMPL_TIMEOUT = 300
@@ -124,8 +124,15 @@ def _sub_call(q, gs):
     """variant: sm / is / gm by keyword; smp / isp / gmp the same entry points with every option passed POSITIONALLY."""
     from synkit.Graph.Matcher.subgraph_matcher import SubgraphMatch
     from synkit.Graph.Matcher import graph_morphism as GM
-    _, variant, c, p, filt, ctype, names, eattr = q
+    _, variant, c, p, filt, ctype, names, eattr = q[:8]
     nn, nd = [a for a, _ in names], [d for _, d in names]
+    if len(q) > 8:            # custom comparators (only the two subgraph_isomorphism functions take them)
+        nc, ec = _comparator(q[8][0]), _comparator(q[8][1])
+        f = SubgraphMatch.subgraph_isomorphism if variant.startswith("sm") else GM.subgraph_isomorphism
+        if variant.endswith("p"):
+            return f(gs[c], gs[p], nn, nd, eattr, filt, ctype, nc, ec)
+        return f(gs[c], gs[p], node_label_names=nn, node_label_default=nd, edge_attribute=eattr, use_filter=filt, check_type=ctype,
+                 node_comparator=nc, edge_comparator=ec)
     if variant == "sm":
         return SubgraphMatch.subgraph_isomorphism(gs[c], gs[p], node_label_names=nn, node_label_default=nd, edge_attribute=eattr,
                                                   use_filter=filt, check_type=ctype)
@@ -140,6 +147,24 @@ def _sub_call(q, gs):
         return GM.subgraph_isomorphism(gs[c], gs[p], nn, nd, eattr, filt, ctype)
     return GM.subgraph_isomorphism(gs[c], gs[p], node_label_names=nn, node_label_default=nd, edge_attribute=eattr,
                                    use_filter=filt, check_type=ctype)
+
+
+def _comparator(spec):
+    """'eq' -> None (the default operator.eq), 'any' -> accept everything, ['wild', v] -> equal or either side is v,
+    ['pwild', v] -> equal or the PATTERN (second argument) is v.  Called as cmp(parent value, child value)."""
+    if spec == "eq":
+        return None
+    if spec == "any":
+        return lambda a, b: True
+    kind, v = spec
+    if kind == "wild":
+        return lambda a, b: a == b or a == v or b == v
+    return lambda a, b: a == b or b == v
+
+
+def _cmp_eval(spec, a, b):
+    f = _comparator(spec)
+    return a == b if f is None else f(a, b)
 
 
 def _edit_in_place(g, spec):
@@ -325,9 +350,13 @@ def coq_case(case):
             elif k in ("iso", "maps", "pre"):
                 qs.append(wrap("(%s %s %s %s)" % ({"iso": "QIso", "maps": "QMaps", "pre": "QPre"}[k], cnat(q[1]), cnat(q[2]), cnat(q[3]))))
             elif k == "sub":
-                _, variant, c, p, filt, ctype, names, eattr = q
-                if eattr == "hcount":
+                _, variant, c, p, filt, ctype, names, eattr = q[:8]
+                cmps = q[8] if len(q) > 8 else ["eq", "eq"]
+                if eattr == "hcount" or (cmps != ["eq", "eq"] and "hcount" in [a for a, _ in names]):
                     return None
+
+                def ccmp(sp):
+                    return "CEq" if sp == "eq" else "CAny" if sp == "any" else "(%s %s)" % ("CWild" if sp[0] == "wild" else "CPatWild", cN(codes(sp[1])))
                 nml = []
                 for a, d in names:
                     if a == "hcount":
@@ -336,7 +365,7 @@ def coq_case(case):
                         nml.append("(%s, %s)" % (cN(0), cN(d)))
                     else:
                         nml.append("(%s, %s)" % (cN(_key(a, dyn)), cN(codes(d))))
-                z = "(%s, %s)" % (clist(nml), copt(None if not eattr else cN(_key(eattr, dyn))))
+                z = "(%s, %s, %s, %s)" % (ccmp(cmps[0]), ccmp(cmps[1]), clist(nml), copt(None if not eattr else cN(_key(eattr, dyn))))
                 if z not in shared:
                     shared.append(z)
                 qs.append(wrap("(QS %s %s %s %s %s z%d)" % (cbool(variant.startswith("gm")), cnat(c), cnat(p), cbool(filt), cbool(ctype == "induced"),
@@ -354,7 +383,7 @@ def coq_case(case):
     for g in case["graphs"]:
         if any(u == v for u, v, _ in g["edges"]):
             return None
-    lets = "".join("let z%d : list (N * N) * option N := %s in " % (i, z) for i, z in enumerate(shared))
+    lets = "".join("let z%d : cmp * cmp * list (N * N) * option N := %s in " % (i, z) for i, z in enumerate(shared))
     if edits:
         return "%srun_h %s %s %s %s" % (lets, gs, cnat(_n_objects(case)), es, clist(qs))
     if _n_objects(case) != len(case["graphs"]):
@@ -529,9 +558,10 @@ def oracle(case):
             if not got and _embed(P, H, nm1, em, True, first_only=True):
                 bad("precheck-sound", "%s: pre-check rejects although an embedding exists" % tag)
         elif k == "sub":
-            _, variant, c, p, filt, ctype, names, eattr = q
-            nmatch = lambda h, pp: all(h.get(a, d) == pp.get(a, d) for a, d in names)
-            ematch = (lambda h, pp: h.get(eattr) == pp.get(eattr)) if eattr else (lambda h, pp: True)
+            _, variant, c, p, filt, ctype, names, eattr = q[:8]
+            cmps = q[8] if len(q) > 8 else ["eq", "eq"]
+            nmatch = lambda h, pp: all(_cmp_eval(cmps[0], h.get(a, d), pp.get(a, d)) for a, d in names)
+            ematch = (lambda h, pp: _cmp_eval(cmps[1], h.get(eattr), pp.get(eattr))) if eattr else (lambda h, pp: True)
             want = bool(_embed(gs[c], gs[p], nmatch, ematch, ctype == "induced", first_only=True))
             if got != want:
                 bad("filter-neutral" if filt else "subgraph-def", "%s: verdict %r, %s containment by brute force %r" % (tag, got, ctype, want))
@@ -700,6 +730,14 @@ def _battery(rng, pairs, n_eng, subs=True, nosubs=(), alt=True, nfixed=8):
                 variant = rng.choice(["smp", "isp", "gmp", "is", "isp"])
                 qs.append(["sub", variant, j, i, rng.random() < 0.5, rng.choice(["induced", "mono", "monomorphism"]), rng.choice(NAMES_ALT),
                            rng.choice(["order", "order", "", "standard_order"] + ([None] if variant == "gmp" else []))])
+            if alt:       # custom comparators (keyword and positional), filter on and off
+                cm = rng.choice([["any", "eq"], ["eq", "any"], [["wild", "C"], "eq"], [["pwild", "C"], ["wild", 1]], [["pwild", "O"], "eq"],
+                                 [["wild", 0], ["pwild", 2]], ["any", "any"], [["wild", "*"], "eq"]])
+                v = rng.choice(["sm", "gm", "smp", "gmp"])
+                ct = rng.choice(["induced", "mono"])
+                nmz = rng.choice([NAMES_DEF, [["element", "*"]], [["charge", 0], ["element", "*"]]])
+                for filt in (False, True):
+                    qs.append(["sub", v, j, i, filt, ct, nmz, "order", cm])
             qs.append(["giso", i, j])
             if alt and rng.random() < 0.5:
                 qs.append(["giso0", i, j])
